@@ -5,7 +5,7 @@ From V Require Import UDial.Model UDial.Proofs.   (* C02's model of the dial: sp
 From V Require Import Gen.Params Lib.Hex Wire.Varint USpec.Model USpec.Proofs USpec.ProofsShuffle
   USpec.ProofsWire USpec.ProofsFp USpec.ProofsDial.   (* [dial] below is USpec.Model.dial *)
 From V Require UFrames.Model UFrames.Proofs UPacker.Model UPacker.ProofsRandom USpec.ProofsBuilder.
-From V Require USpec.RunDial USpec.RunFp USpec.ProofsFpCase.
+From V Require USpec.RunDial USpec.RunFp USpec.ProofsFpCase USpec.ProofsFrameBytes.
 Import ListNotations.
 Open Scope Z_scope.
 
@@ -314,6 +314,27 @@ Theorem C11_exts_match_exact : forall spec wire,
 Proof. exact ProofsFpCase.exts_match_exact. Qed.
 Print Assumptions C11_exts_match_exact.
 
+(** From frames to BYTES: a reader in the manner of clienthellod's ReadAllFrames (one-byte
+    frame type; PADDING = a run of zero bytes; PING; CRYPTO with varint offset and length),
+    run on the encoded payload of any well-formed frame list, finds as a set exactly the visible
+    frame types of that list ... *)
+Theorem C11_frame_types_of_bytes : forall ws, Forall ProofsFrameBytes.wf_w ws ->
+  exists l, ProofsFrameBytes.types_of (length (UFrames.Model.encode ws)) (UFrames.Model.encode ws) = Some l /\
+            forall t, In t l <-> In t (ProofsBuilder.wtypes ws).
+Proof. exact ProofsFrameBytes.types_of_encode. Qed.
+Print Assumptions C11_frame_types_of_bytes.
+
+(** ... so on the bytes of every payload C09's builder model produces for an accepted builder
+    on a slice the packer may hand it, for every value of both randomness sources, the
+    fingerprinter's frame reader finds exactly [builder_types p]. *)
+Theorem C11_builder_bytes_types : forall p data base bs us ws bs' us',
+  ProofsBuilder.builder_ok p -> ProofsBuilder.slice_ok p data base ->
+  UFrames.Model.build_internal p data base bs us = UFrames.Model.Ok (ws, bs', us') ->
+  exists l, ProofsFrameBytes.types_of (length (UFrames.Model.encode ws)) (UFrames.Model.encode ws) = Some l /\
+            forall t, In t l <-> In t (ProofsBuilder.builder_types p).
+Proof. exact ProofsFrameBytes.builder_bytes_types. Qed.
+Print Assumptions C11_builder_bytes_types.
+
 (** Non-vacuity. *)
 Example C11_ex_suppress :
   map pid (suppress [27; 4] [P 4 [1] true; P 58 [] false; P 27 [9] false; P 1 [2] true; P 89 [] false; P 26 [] false])
@@ -415,3 +436,12 @@ Example C11_ex_classes :
   RunFp.perm_eqb [(1, [2]); (3, [])] [(3, []); (1, [9])] = false.
 Proof. repeat split. Qed.
 Print Assumptions C11_ex_classes.
+
+Example C11_ex_frame_bytes : (* PADDING runs merge, an empty PADDING frame is invisible, CRYPTO bodies are skipped *)
+  let ws := [UFrames.Model.WPad 2; UFrames.Model.WPad 0; UFrames.Model.WCrypto 70 [0; 1; 0];
+             UFrames.Model.WPing; UFrames.Model.WPad 3] in
+  UFrames.Model.encode ws = [0; 0; 6; 64; 70; 3; 0; 1; 0; 1; 0; 0; 0] /\
+  ProofsFrameBytes.types_of 13 (UFrames.Model.encode ws) = Some [0; 6; 1; 0] /\
+  ProofsBuilder.wtypes ws = [0; 6; 1; 0].
+Proof. repeat split. Qed.
+Print Assumptions C11_ex_frame_bytes.
